@@ -261,6 +261,28 @@ def entries(seed=0):
         return m, [sA], m.sig_out
     add("StaticCondensation/sparse_nonsym", statcond_ns, tol=1e-8, tags=("linsolve",))
 
+    def statcond_herm(sparse):
+        def fn(r):
+            n = 5
+            M = r.random((n, n)) + 1j * r.random((n, n))
+            A = M + M.conj().T + 2 * n * np.eye(n)           # complex Hermitian, not symmetric
+            sA = S("A", sps.csc_matrix(A) if sparse else A)
+            m = pym.StaticCondensation(sA, main=np.array([1, 3]), free=np.array([0, 2, 4]))
+            return m, [sA], m.sig_out
+        return fn
+    add("StaticCondensation/sparse_hermitian", statcond_herm(True), tol=1e-8, tags=("linsolve",))
+    add("StaticCondensation/dense_hermitian", statcond_herm(False), tol=1e-8, tags=("linsolve",))
+
+    def statcond_symff(r):
+        n = 6
+        A = r.random((n, n)) + n * np.eye(n)
+        f = np.array([0, 2, 5])
+        A[np.ix_(f, f)] = 0.5 * (A[np.ix_(f, f)] + A[np.ix_(f, f)].T)     # symmetric free-free block, non-symmetric coupling blocks
+        sA = S("A", sps.csc_matrix(A))
+        m = pym.StaticCondensation(sA, main=np.array([1, 3]), free=f)
+        return m, [sA], m.sig_out
+    add("StaticCondensation/sparse_symmetric_free_block", statcond_symff, tol=1e-8, tags=("linsolve",))
+
     def eig(kind):
         def fn(r):
             n = 5
